@@ -1576,6 +1576,15 @@ fn gen_c18(r: &mut Rng, seed: u64) -> Scenario {
                 p.extend_from_slice(&[0xff, 0xfe, b'x']);
                 (p, 0o100644)
             }
+            _ if r.chance(1, 4) => {
+                // link targets near the longest path the kernel hands out
+                let want = *r.pick(&[255usize, 256, 257, 1023, 4095]);
+                let mut p = format!("/very/long/{}/", i).into_bytes();
+                while p.len() < want {
+                    p.push(b'a' + (p.len() % 26) as u8);
+                }
+                (p, 0o100644)
+            }
             _ if r.coin() => (format!("/srv/\u{1F4C4}-{}-\u{1F600}.txt", i).into_bytes(), 0o100644),
             _ => (format!("/srv/ünï/{}", i).into_bytes(), 0o040755),
         };
